@@ -381,6 +381,13 @@ func c18Deadlines(r *Run) {
 		}
 	}
 	termD := []time.Duration{time.Millisecond, time.Second, 10 * time.Second}[t.Draw(3)]
+	// the blocked Write of the write terminals: 50000 bytes through a pipe of 1024,
+	// or no bytes at all through a pipe that takes nothing (an empty message is a
+	// frame too: its header is the only thing the transport is asked to take)
+	termWLen, termWCap := 50000, 1024
+	if t.Pct(30) {
+		termWLen, termWCap = 0, 0
+	}
 	// what has arrived of the next message when an active read deadline fires:
 	// nothing; the frame header only; the header and a few payload bytes; a
 	// whole non-final fragment plus the beginning of the next frame
@@ -598,8 +605,11 @@ func c18Deadlines(r *Run) {
 			var retAt time.Duration
 			if terminal == 4 {
 				hold = true
-				rc.Lib.Out().Cap = 1024
+				rc.Lib.Out().Cap = termWCap
 				rc.Lib.Out().HardCap = true
+				if termWLen == 0 {
+					r.S.Count("probe.deadline-during-a-blocked-empty-write")
+				}
 			}
 			if terminal == 3 {
 				injectPartial()
@@ -608,7 +618,7 @@ func c18Deadlines(r *Run) {
 				if terminal == 3 {
 					_, callErr = nc.Read(make([]byte, 10))
 				} else {
-					_, callErr = nc.Write(Payload{Kind: 2, Len: 50000, Seed: 4}.Bytes())
+					_, callErr = nc.Write(Payload{Kind: 2, Len: termWLen, Seed: 4}.Bytes())
 				}
 				retAt = r.S.Now()
 				returned = true
@@ -644,11 +654,14 @@ func c18Deadlines(r *Run) {
 			}
 		case 2:
 			hold = true
-			rc.Lib.Out().Cap = 1024
+			rc.Lib.Out().Cap = termWCap
 			rc.Lib.Out().HardCap = true
+			if termWLen == 0 {
+				r.S.Count("probe.deadline-during-a-blocked-empty-write")
+			}
 			nc.SetWriteDeadline(time.Now().Add(termD))
 			start := r.S.Now()
-			_, err := nc.Write(Payload{Kind: 2, Len: 50000, Seed: 4}.Bytes())
+			_, err := nc.Write(Payload{Kind: 2, Len: termWLen, Seed: 4}.Bytes())
 			took := r.S.Now() - start
 			if err == nil {
 				r.Violate("active-deadline-ignored", sig, "Write returned nil although the peer never read and its deadline (%v) passed", termD)
